@@ -82,9 +82,16 @@
                    [C01_doc_ok_acyclic] packages this: acyclicity (5.5.2.2:
                    C04_spreads_silent_acyclic, to be transported to [acyclic_frags]) plus an
                    n-free invariant Q give [doc_ok] with n = [default_fuel D].
-        Not needed from validation at all: 5.2.x beyond the root type, 5.3.2 (field merging: the
-        executor merges whatever it is given), 5.4 / 5.6 for field arguments, 5.5.2.x, 5.8 beyond
-        what (b) uses.
+        ALSO needed (correction, found by the C03 builder): 5.3.2 (field selection merging) for
+        conjuncts (f) and (i).  The executor takes the field definition from the FIRST node of a
+        group and executes the MERGED sub-selections of all its nodes on that field's type; two
+        nodes under one response key that select different fields ({ a: o { i }  a: p { j } },
+        o: Obj { i }, p: Obj2 { j }) put j into a selection set executed on Obj: [doc_ok] is
+        false, and only 5.3.2 rejects the document (every other rule passes).  So the invariant Q
+        of [C01_doc_ok_acyclic] must include "nodes sharing a response key on overlapping parent
+        types select the same field with the same arguments".
+        Not needed from validation at all: 5.2.x beyond the root type, 5.4 / 5.6 for field
+        arguments, 5.5.2.1 / 5.5.2.3, 5.8 beyond what (b) uses.
       coerce_ok_dirs_evaluable (C05): CoerceVariableValues succeeding on a validated operation
         gives every declared Boolean! variable (and every Boolean variable that has a value or a
         non-null default) a boolean; the one remaining case — a nullable variable with a default,
@@ -106,7 +113,7 @@ From ApiFu Require Val.Values.
 From ApiFu Require Import Base.Sexp ExeA.ArgData ExeA.ArgArgs ExeA.ArgModel ExeA.ArgSpec ExeA.ArgHyps
      ExeA.ArgBaseProofs ExeA.ArgSpecProofs ExeA.ArgCacheProofs ExeA.ArgProofs
      ExeA.ArgOrderProofs ExeA.ArgShapeProofs ExeA.ArgFuelProofs ExeA.ArgVisibleProofs ExeA.ArgRequestProofs
-     ExeA.ArgKeyOrder ExeA.ArgKeyOrderProofs ExeA.ArgLevelProofs ExeA.ArgAcyclicProofs.
+     ExeA.ArgKeyOrder ExeA.ArgKeyOrderProofs ExeA.ArgLevelProofs ExeA.ArgAcyclicProofs ExeA.ArgDirProofs.
 Import ListNotations.
 
 (** The executor finishes: no panic, fragment expansion never runs out of fuel. *)
@@ -114,6 +121,46 @@ Theorem C01_exec_total : forall S D E fuel n W,
   type_names_okb S = true -> doc_positions_okb D = true -> doc_ok S D E fuel n = true ->
   exists d errs, run fixed S D E fuel W = Done d errs.
 Proof. exact (fun S D E fuel n W Hn Hp Hd => exec_total S D E fuel Hn Hp n Hd W). Qed.
+
+(** for C03 (round 8): the same WITHOUT the directive conjunct.  [doc_ok_nodirs] is [doc_ok] with
+    [dirs_ok] dropped from the deep predicate (the type conditions [cond_ok] stay; [sels_ok] is
+    unchanged): a validated request whose @skip/@include condition cannot be evaluated (a nullable
+    variable with a default, explicitly null) satisfies it.  The executor still finishes — it
+    leaves such a selection out and reports the directive — and its data is the reference's
+    (whose CollectFields is totalised the same way) and has a JSON form.  Nothing is said about
+    the errors here.  Proof: cache transparency, then [run_report_independent] (without the cache
+    no function of the executor reads what has been reported, so the real executor and one that
+    is silent about unevaluable directives return the same), then the simulation for the silent
+    executor, which needs no hypothesis on directives. *)
+Theorem C01_doc_ok_implies_nodirs : forall S D E fuel n,
+  doc_ok S D E fuel n = true -> doc_ok_nodirs S D E fuel n = true.
+Proof. exact doc_ok_nodirs_of_doc_ok. Qed.
+
+Theorem C01_exec_total_nodirs : forall S D E fuel n W,
+  type_names_okb S = true -> doc_positions_okb D = true -> doc_ok_nodirs S D E fuel n = true ->
+  exists d errs, run fixed S D E fuel W = Done d errs.
+Proof. exact (fun S D E fuel n W Hn Hp Hd => exec_total_nodirs S D E fuel Hn Hp n W Hd). Qed.
+
+Theorem C01_exec_data_eq_nodirs : forall S D E fuel n W d errs,
+  type_names_okb S = true -> doc_positions_okb D = true -> doc_ok_nodirs S D E fuel n = true ->
+  run fixed S D E fuel W = Done d errs -> d = data (exec_spec S D E fuel W).
+Proof. exact (fun S D E fuel n W d errs Hn Hp Hd => exec_data_eq_nodirs S D E fuel Hn Hp n W d errs Hd). Qed.
+
+Theorem C01_exec_data_finite_nodirs : forall S D E fuel n W j errs,
+  type_names_okb S = true -> doc_positions_okb D = true -> doc_ok_nodirs S D E fuel n = true ->
+  run fixed S D E fuel W = Done (Some j) errs -> json_finite j = true.
+Proof. exact (fun S D E fuel n W j errs Hn Hp Hd => exec_data_finite_nodirs S D E fuel Hn Hp n W j errs Hd). Qed.
+
+(** [C01_doc_ok_acyclic] for [doc_ok_nodirs]: same Q, [conds_ok] replaced by its type-condition half *)
+Theorem C01_doc_ok_nodirs_acyclic : forall S D E fuel (Q : name -> list selection -> Prop) rt,
+  acyclic_frags D ->
+  conds_gen S D E false = true ->
+  s_root_type S (op_kind D) = Some rt ->
+  (forall ot sels, Q ot sels ->
+     exists groups, s_collect S D E fuel ot sels = Some groups /\ Forall (group_local S D Q ot) groups) ->
+  Q rt (op_sels D) ->
+  doc_ok_nodirs S D E fuel (default_fuel D) = true.
+Proof. exact doc_ok_nodirs_acyclic. Qed.
 
 (** the instance C03 uses: the fuel the executor model is run with in the check *)
 Theorem C01_exec_total_default_fuel : forall S D E n W,
@@ -432,6 +479,11 @@ Proof. exact exec_data_finite_refuted_before_fix7. Qed.
 
 Print Assumptions C01_exec_total.
 Print Assumptions C01_exec_total_default_fuel.
+Print Assumptions C01_doc_ok_implies_nodirs.
+Print Assumptions C01_exec_total_nodirs.
+Print Assumptions C01_exec_data_eq_nodirs.
+Print Assumptions C01_exec_data_finite_nodirs.
+Print Assumptions C01_doc_ok_nodirs_acyclic.
 Print Assumptions C01_collect_cache_transparent_refuted_before_fixd.
 Print Assumptions C01_cache_key_injective.
 Print Assumptions C01_collect_cache_transparent_refuted_coarse_key.
